@@ -72,11 +72,12 @@ theorem modify_repo_eq (r : Repo) (nss stale : List Name) (m : Inst) :
   rw [setInsts_eq, delInsts_eq, mapInsts_comp]
   rfl
 
-/-- the request condition under which ModifyInstance keeps the discipline: the merged instance still
-    names the request namespace by one of its ends (or has no end) -/
+/-- the request condition under which ModifyInstance keeps the discipline: the instance is an association
+    instance (has a reference property) and the merged instance still names the request namespace by one
+    of its ends (or has no end) -/
 def ModifyOk (sv : Server) (ns : Name) (p : Path) (chg : List IProp) : Prop :=
   ∀ S, findNs sv.repo ns = some S → ∀ orig, findInst S.insts (srcPath ns p) = some orig →
-    endNss (merged orig chg) = [] ∨ inNss (endNss (merged orig chg)) ns = true
+    hasRef orig = true ∧ (endNss (merged orig chg) = [] ∨ inNss (endNss (merged orig chg)) ns = true)
 
 theorem stale_disjoint {orig m : Inst} {ns n : Name} (h : inNss (modStale orig m ns) n = true) :
     inNss (otherNamespaces m ns ++ [ns]) n = false := by
@@ -101,7 +102,7 @@ theorem stale_disjoint {orig m : Inst} {ns n : Name} (h : inNss (modStale orig m
 /-- membership in the new instance lists: an untouched instance that is no namesake of the modified
     one, or the updated copy in a namespace of the update list -/
 theorem modF_mem {r : Repo} (hinv : WInv r) {S0 : NsStore} (hS0 : S0 ∈ r) {ns : Name} (hS0n : ieq S0.name ns = true)
-    {orig m : Inst} (horig : orig ∈ S0.insts) (hpath : m.path = orig.path)
+    {orig m : Inst} (horig : orig ∈ S0.insts) (hpath : m.path = orig.path) (hro : hasRef orig = true)
     {S : NsStore} (hS : S ∈ r) {b : Inst}
     (hb : b ∈ modF (otherNamespaces m ns ++ [ns]) (modStale orig m ns) m S) :
     (b ∈ S.insts ∧ pkEq b.path m.path = false) ∨
@@ -129,7 +130,7 @@ theorem modF_mem {r : Repo} (hinv : WInv r) {S0 : NsStore} (hS0 : S0 ∈ r) {ns 
       | true =>
         exfalso
         rw [hpath] at hpk
-        have hconf := namesake_confined hinv hS0 hS horig hb hpk
+        have hconf := namesake_confined hinv hS0 hS horig hb hpk hro
         have hold : inNss (otherNamespaces orig ns ++ [ns]) S.name = true := by
           rcases hconf with rfl | hE
           · exact inNss_iff.mpr ⟨ns, by simp, ieq_symm hS0n⟩
@@ -178,13 +179,13 @@ theorem modify_preserves {sv sv' : Server} {ns : Name} {p : Path} {chg : List IP
     WInv sv'.repo := by
   obtain ⟨S0, orig, hS0, hfind, horig, hall, hrepo⟩ := modifyAssoc_ok h
   obtain ⟨hS0r, hS0n⟩ := findNs_mem hS0
-  have hhome := hreq S0 hS0 orig hfind
+  obtain ⟨hro, hhome⟩ := hreq S0 hS0 orig hfind
   have hpath : (merged orig chg).path = orig.path := rfl
   have hcls : (merged orig chg).cls = orig.cls := rfl
   rw [hrepo, ← hpath, modify_repo_eq]
   generalize hm : merged orig chg = m at *
   have hmem := fun (S : NsStore) (hS : S ∈ sv.repo) (b : Inst) hb =>
-    modF_mem hinv hS0r hS0n horig hpath hS (b := b) hb
+    modF_mem hinv hS0r hS0n horig hpath hro hS (b := b) hb
   apply winv_mapInsts hinv
   · intro S hS b hb
     rcases hmem S hS b hb with ⟨hbS, _⟩ | ⟨rfl, _⟩
@@ -207,9 +208,9 @@ theorem modify_preserves {sv sv' : Server} {ns : Name} {p : Path} {chg : List IP
         rcases hhome with h0 | h1
         · exact Or.inl h0
         · exact Or.inr (by rw [← inNss_congr hkS]; exact h1)
-  · intro S hS T hT b hb c hc hpk he
+  · intro S hS T hT b hb c hc hpk hr he
     rcases hmem S hS b hb with ⟨hbS, hbn⟩ | ⟨rfl, hinS⟩ <;> rcases hmem T hT c hc with ⟨hcT, hcn⟩ | ⟨rfl, hinT⟩
-    · exact hinv.conf S hS T hT b hbS c hcT hpk he
+    · exact hinv.conf S hS T hT b hbS c hcT hpk hr he
     · rw [pkEq_rebase_right, hbn] at hpk; cases hpk
     · rw [pkEq_rebase_left, pkEq_symm_eq, hcn] at hpk; cases hpk
     · rw [endNss_rebase] at he
@@ -255,6 +256,15 @@ theorem modify_preserves {sv sv' : Server} {ns : Name} {p : Path} {chg : List IP
     · exact hinv.coh S hS T hT b hbS c hcT hpk
     · rw [pkEq_rebase_right, hbn] at hpk; cases hpk
     · rw [pkEq_rebase_left, pkEq_symm_eq, hcn] at hpk; cases hpk
-    · exact ⟨rfl, rfl⟩
+    · exact fun _ => ⟨rfl, rfl⟩
+
+/-- the request conditions along a history (each evaluated in the state the request meets) -/
+def HistOk : Server → List WOp → Prop
+  | _, [] => True
+  | sv, op :: ops =>
+    (match op with
+     | .create ns a => CreateOk sv.repo ns a
+     | .modify ns p chg => ModifyOk sv ns p chg
+     | .delete _ _ => True) ∧ HistOk (stepW sv op) ops
 
 end C13
